@@ -31,6 +31,11 @@ const ATOMS = {
   emptyIface: { src: 'IEmpty', ctors: ['Object'], samples: () => [{}, { a: 1 }], pre: 'interface IEmpty {}' },
   extOnlyIface: { src: 'IExtOnly', ctors: ['Object'], samples: () => [{ x: 1 }], pre: 'interface IBaseO { x: number }\ninterface IExtOnly extends IBaseO {}' },
   extCallIface: { src: 'IExtCall', ctors: ['Function'], samples: () => [() => {}], pre: 'interface IBaseF { (): void }\ninterface IExtCall extends IBaseF {}' },
+  // callable object types with members of their own: every inhabitant is a function (with properties); judged on acceptance only
+  extCallOwnIface: { src: 'INamedH', loose: true, ctors: ['Function', 'Object'], samples: () => [Object.assign(() => {}, { label: 'l' })], pre: 'interface IBaseH { (e: string): void }\ninterface INamedH extends IBaseH { label: string }' },
+  extCallDeepIface: { src: 'ILeafH', loose: true, ctors: ['Function', 'Object'], samples: () => [Object.assign(() => {}, { label: 'l', n: 1 })], pre: 'interface IRootH { (): void }\ninterface IMidH extends IRootH { n: number }\ninterface ILeafH extends IMidH { label: string }' },
+  extCtorOwnIface: { src: 'INamedK', loose: true, ctors: ['Function', 'Object'], samples: () => [Object.assign(function K() {}, { label: 'l' })], pre: 'interface IBaseK { new (): Date }\ninterface INamedK extends IBaseK { label: string }' },
+  callSigOwn: { src: '{ (): void; label: string }', loose: true, ctors: ['Function', 'Object'], samples: () => [Object.assign(() => {}, { label: 'l' })] },
   callSig: { src: '{ (): void }', ctors: ['Function'], samples: () => [() => {}] },
   iface: { src: 'IObj', ctors: ['Object'], samples: () => [{ y: 's' }], pre: 'interface IObj { y: string }' },
   ifaceFn: { src: 'IFn', ctors: ['Function'], samples: () => [() => {}], pre: 'interface IFn { (): void }' },
@@ -111,7 +116,7 @@ const UNARY = Object.keys(OPS).filter((k) => OPS[k].arity === 1);
 const BINARY = Object.keys(OPS).filter((k) => OPS[k].arity === 2);
 
 function build(term, st) {
-  if (term.a) { const a = ATOMS[term.a]; if (a.pre) st.pre.add(a.pre); return { src: a.src, ctors: a.ctors.slice(), samples: a.samples(), loose: false }; }
+  if (term.a) { const a = ATOMS[term.a]; if (a.pre) st.pre.add(a.pre); return { src: a.src, ctors: a.ctors.slice(), samples: a.samples(), loose: !!a.loose }; }
   const op = OPS[term.op];
   const parts = term.args.map((t) => build(t, st));
   const n = `T${st.n++}`;
